@@ -266,6 +266,14 @@ impl NgdpResolutionCache {
             .unwrap_or_default()
     }
 
+    /// Whether a root file is cached for this content key
+    pub async fn has_root_file(&self, content_key: ContentKey) -> NgdpCacheResult<bool> {
+        self.root_cache
+            .contains(&RootFileKey::new_raw(content_key))
+            .await
+            .map_err(Into::into)
+    }
+
     /// Store a root file in cache
     pub async fn cache_root_file(
         &self,
